@@ -6,6 +6,7 @@
 From Coq Require Import ZArith List.
 From Verif Require Import Lib.Params Lib.Octets Spec.Edwards Spec.Blake512 Spec.EdDSASpec
   Model.Outcome Model.Eddsa Proofs.KeccakStreamProofs Proofs.EddsaProofs Proofs.EddsaInstances Proofs.EddsaPoseidon.
+From Verif Require Proofs.GapEddsa Spec.MiMC7Spec.
 From Verif Require Gen.BigIntRoutines Proofs.BigIntEqSign.
 Local Open Scope Z_scope.
 
@@ -74,6 +75,29 @@ Proof.
   exact (conj (BigIntEqSign.gen_babyjub_PrivateKey_SignPoseidon_eq blake p5) (BigIntEqSign.gen_babyjub_PrivateKey_SignMimc7_eq blake m7)).
 Qed.
 
+(* both instances with the digest written as the REFERENCE function of C01 / C08 *)
+Theorem C02_poseidon_is_circomlib : forall k msg, 0 <= msg < q ->
+  SignPoseidon blake512 poseidon5 k msg
+  = Ok (spec_signature blake512 (fun v => Spec.PoseidonRef.poseidon_hash_ref v 0) k msg).
+Proof. exact GapEddsa.SignPoseidon_is_circomlib. Qed.
+
+Theorem C02_mimc7_is_circomlib : forall k msg, 0 <= msg < q ->
+  SignMimc7 blake512 mimc7h k msg
+  = Ok (spec_signature blake512 (fun v => MiMC7Spec.spec_hash v None) k msg).
+Proof. exact GapEddsa.SignMimc7_is_circomlib. Qed.
+
+Theorem C02_poseidon_roundtrip_verifies : forall k msg sig, 0 <= msg < q ->
+  SignPoseidon blake512 poseidon5 k msg = Ok sig ->
+  exists sig', SigDecompress (SigCompress sig) = Ok sig' /\
+               VerifyPoseidon poseidon5 (Public blake512 k) msg sig' = Ok tt.
+Proof. exact GapEddsa.SignPoseidon_roundtrip_verifies. Qed.
+
+Theorem C02_mimc7_roundtrip_verifies : forall k msg sig, 0 <= msg < q ->
+  SignMimc7 blake512 mimc7h k msg = Ok sig ->
+  exists sig', SigDecompress (SigCompress sig) = Ok sig' /\
+               VerifyMimc7 mimc7h (Public blake512 k) msg sig' = Ok tt.
+Proof. exact GapEddsa.SignMimc7_roundtrip_verifies. Qed.
+
 Print Assumptions C02_sign_conforms.
 Print Assumptions C02_sign_verifies.
 Print Assumptions C02_roundtrip_verifies.
@@ -82,3 +106,5 @@ Print Assumptions C02_mimc7_conforms.
 Print Assumptions C02_mimc7_verifies.
 Print Assumptions C02_poseidon_verifies.
 Print Assumptions C02_model_is_the_source.
+Print Assumptions C02_mimc7_is_circomlib.
+Print Assumptions C02_mimc7_roundtrip_verifies.
